@@ -164,9 +164,12 @@ def corr(ctx):
         if r is None:
             continue
         ctx.corr_cases += 1
-        rep = r["reply"]
-        key = ("agree" if rep == "A 1" else "DIFFER" if rep == "A 0" and r["lexer_ok"] else
-               "differ:lexer-violates-O_lexer_concat" if rep == "A 0" else "not-rendered-by-both")
+        rep = r["reply"]          # "A <agree><static in both back ends>"
+        key = ("not-rendered-by-both" if not rep.startswith("A ") else
+               "agree" if rep[2] == "1" else
+               "differ:outside-static-grammar(inv/path/project link ...)" if rep[3] != "1" else
+               "differ:lexer-violates-O_lexer_concat" if not r["lexer_ok"] else
+               "differ:project-file-exists(O_no_files violated)" if not r["no_files"] else "DIFFER")
         ctx.count("measured:backends-tree:" + key)
         if key == "DIFFER":
             ctx.disagree("backends_agree (tree level): the two renderers differ after erase_be", case, "docutils", "sphinx")
